@@ -12,7 +12,8 @@ open KV KV.RW KV.Spec.RB KV.C02
 
 inductive HdrB
   | v2 (h : H2)
-  | v1 (h : H1)
+  /-- a v0 / v1 message; `ts` = `r.header.v1.timestamp` (0 for v0: the header was zeroed) -/
+  | v1 (h : H1) (ts : Int)
   /-- `default: err = r.header.badMagic()` -/
   | bad (magic : Int)
   deriving DecidableEq, Repr
@@ -21,11 +22,11 @@ inductive HdrB
 def hdrBranch (firstOffset length magic : Int) : M HdrB :=
   if magic = 0 then do
     let attributes ← readInt8
-    pure (.v1 ⟨firstOffset, 0, attributes, (length - 6).toNat⟩)
+    pure (.v1 ⟨firstOffset, 0, attributes, (length - 6).toNat⟩ 0)
   else if magic = 1 then do
     let attributes ← readInt8
-    let _timestamp ← readInt64
-    pure (.v1 ⟨firstOffset, 1, attributes, (length - 14).toNat⟩)
+    let timestamp ← readInt64
+    pure (.v1 ⟨firstOffset, 1, attributes, (length - 14).toNat⟩ timestamp)
   else if magic = 2 then do
     let _crc ← readInt32
     let attributes ← readInt16
